@@ -10,6 +10,38 @@ from docs import to_sx
 # ---------------------------------------------------------------------------------------------
 # engine (C04, C05, C06)
 
+def _render_oracle(impl_piece):
+    """the last clause of C04 on the implementation's own stream and text: the rendered text is the concatenation of the stream's text
+    fragments, each line break written as a newline plus its indentation, and differs from it only by trailing whitespace removed
+    from lines.  Returns a description of the difference or None."""
+    from common import parse_sx
+    try:
+        sx = parse_sx(impl_piece)
+    except Exception:
+        return None
+    sd, text = sx[0], sx[1]
+    if not sd or sd[0] != 'sdocs' or not text or text[0] != 'text':
+        return None
+    rendered = ''.join(chr(int(c)) for c in text[1:])
+    raw_lines, cur = [], ''
+    for it in sd[1:]:
+        if it[0] == 'l':
+            raw_lines.append(cur)
+            cur = ' ' * int(it[1])
+        elif it[0] == 't':
+            cur += ''.join(chr(int(c)) for c in it[1:])
+    raw_lines.append(cur)
+    if any('\n' in l for l in raw_lines):
+        return None         # a text fragment with a newline of its own: lines cannot be told apart (not produced by the printers)
+    got = rendered.split('\n')
+    if len(got) != len(raw_lines):
+        return 'the stream has %d lines, the rendered text %d: %r vs %r' % (len(raw_lines), len(got), '\n'.join(raw_lines)[:200], rendered[:200])
+    for i, (r, g) in enumerate(zip(raw_lines, got)):
+        if not r.startswith(g) or r[len(g):].strip() != '':
+            return 'line %d of the stream is %r, rendered as %r' % (i, r[:120], g[:120])
+    return None
+
+
 def _engine_oracle(m, drv, strict_matters=True):
     """classify one model/implementation disagreement on a document: returns a failing-input payload or None"""
     if 'impl' not in m or 'doc' not in m:
@@ -18,6 +50,10 @@ def _engine_oracle(m, drv, strict_matters=True):
     if impl.startswith('(error'):
         return {'kind': 'engine-raises', 'doc': m['doc'], 'w': m['w'], 'frac': m['frac'], 'smart': m['smart'], 'impl': impl}
     sd = impl[1:impl.index(' (text')]
+    bad_render = _render_oracle(impl)
+    if bad_render:
+        return {'kind': 'renderer-alters-text', 'doc': m['doc'], 'w': m['w'], 'frac': m['frac'], 'rw': m['rw'], 'smart': m['smart'],
+                'impl_sdocs': sd[:600], 'what': bad_render}
     basic = drv.ask('(chk 0 %s %s)' % (to_sx(m['doc']), sd))
     if basic == '(ok 0)':
         return {'kind': 'engine-not-a-layout', 'doc': m['doc'], 'w': m['w'], 'frac': m['frac'], 'rw': m['rw'], 'smart': m['smart'],
